@@ -745,3 +745,41 @@ func (c *Ctx) ReachableFuncs(roots ...*ssa.Function) map[*ssa.Function]bool {
 	}
 	return seen
 }
+
+// unspill resolves a load of a local cell that was stored earlier in the same block
+// (go/ssa spills named/deferred results: `*t1 = v; rundefers; t9 = *t1; return t9`).
+func unspill(v ssa.Value) ssa.Value {
+	for i := 0; i < 4; i++ {
+		u, ok := v.(*ssa.UnOp)
+		if !ok || u.Op != token.MUL {
+			return v
+		}
+		al, ok := u.X.(*ssa.Alloc)
+		if !ok {
+			return v
+		}
+		var last ssa.Value
+		for _, in := range u.Block().Instrs {
+			if in == ssa.Instruction(u) {
+				break
+			}
+			if st, ok := in.(*ssa.Store); ok && st.Addr == al {
+				last = st.Val
+			}
+		}
+		if last == nil {
+			return v
+		}
+		v = last
+	}
+	return v
+}
+
+// retResults returns the results of a return with deferred-result spills resolved.
+func retResults(ret *ssa.Return) []ssa.Value {
+	out := make([]ssa.Value, len(ret.Results))
+	for i, r := range ret.Results {
+		out[i] = unspill(r)
+	}
+	return out
+}
